@@ -1062,10 +1062,11 @@ func (in *Interp) reBacktrack(p *syntax.Prog, b []value, pc, pos int, caps []int
 			if pos >= len(b) {
 				return nil
 			}
-			if !in.reRuneMatches(inst, b[pos]) {
+			ok, width := in.reRuneMatches(inst, b, pos)
+			if !ok {
 				return nil
 			}
-			pos++
+			pos += width
 			pc = int(inst.Out)
 		default:
 			abort(abUnsupported, "regexp instruction")
@@ -1073,16 +1074,52 @@ func (in *Interp) reBacktrack(p *syntax.Prog, b []value, pc, pos int, caps []int
 	}
 }
 
-func (in *Interp) reRuneMatches(inst *syntax.Inst, c value) bool {
-	if cb, ok := c.(uint8); ok {
-		if cb >= 0x80 {
-			abort(abUnsupported, "regexp over non-ASCII text")
+// reRuneMatches decodes the rune at b[pos] and tests it against inst.
+// Symbolic bytes: ASCII is handled in full; a symbolic byte >= 0x80 is handled
+// when its neighbourhood is concrete enough to decode it (a lone byte between
+// ASCII bytes is invalid UTF-8 = U+FFFD of width 1, exactly as package regexp
+// sees it); anything else ends the path as unsupported.
+func (in *Interp) reRuneMatches(inst *syntax.Inst, b []value, pos int) (bool, int) {
+	c := b[pos]
+	isCont := func(v value) (bool, bool) { // (is continuation byte, known)
+		cb, ok := v.(uint8)
+		if !ok {
+			return false, false
 		}
-		return inst.MatchRune(rune(cb))
+		return cb >= 0x80 && cb <= 0xBF, true
+	}
+	if cb, ok := c.(uint8); ok {
+		if cb < 0x80 {
+			return inst.MatchRune(rune(cb)), 1
+		}
+		var buf []byte
+		for j := pos; j < len(b) && j < pos+4; j++ {
+			x, ok := b[j].(uint8)
+			if !ok {
+				if cb >= 0xC2 {
+					abort(abUnsupported, "regexp: multi-byte rune with symbolic continuation byte")
+				}
+				break
+			}
+			buf = append(buf, x)
+		}
+		r, sz := decodeRune(buf)
+		return inst.MatchRune(r), sz
 	}
 	t := c.(*Term)
 	if !in.branch(mkBvCmp(opBvUlt, t, mkBV(8, 0x80))) {
-		abort(abUnsupported, "regexp over symbolic non-ASCII byte")
+		// non-ASCII symbolic byte: a continuation or invalid lead byte alone is U+FFFD;
+		// a valid lead byte (0xC2..0xF4) needs its continuation bytes.
+		lead := mkAnd(mkBvCmp(opBvUle, mkBV(8, 0xC2), t), mkBvCmp(opBvUle, t, mkBV(8, 0xF4)))
+		if in.branch(lead) {
+			if pos+1 < len(b) {
+				ic, known := isCont(b[pos+1])
+				if !known || ic {
+					abort(abUnsupported, "regexp over a symbolic multi-byte rune")
+				}
+			}
+		}
+		return inst.MatchRune(0xFFFD), 1
 	}
 	// build the class condition over ASCII
 	cond := mkBool(false)
@@ -1104,5 +1141,5 @@ func (in *Interp) reRuneMatches(inst *syntax.Inst, c value) bool {
 			lo = -1
 		}
 	}
-	return in.branch(cond)
+	return in.branch(cond), 1
 }
